@@ -21,10 +21,14 @@ func (t *Translator) TransformRequest(ctx context.Context, r *http.Request) (*tr
 	var anthropicReq AnthropicRequest
 	decoder := json.NewDecoder(limitedBody)
 	decoder.DisallowUnknownFields()
+	// numbers in free-form members (tool inputs, schemas, tool results) are kept as written:
+	// float64 would round integers above 2^53 before they are re-encoded for the backend
+	decoder.UseNumber()
 
 	if err := decoder.Decode(&anthropicReq); err != nil {
 		return nil, fmt.Errorf("failed to parse Anthropic request: %w", err)
 	}
+	anthropicReq.normaliseNumbers()
 
 	if err := anthropicReq.Validate(); err != nil {
 		return nil, fmt.Errorf("invalid request: %w", err)
